@@ -25,6 +25,7 @@ func (p *Program) LoadConsts() error {
 	byPkg := map[string][]gv{}
 	ifaceVars := map[string]bool{}
 	ptrFields := map[string]bool{}
+	tables := map[string][][3]string{} // package -> (variable, field, "int"|"func")
 	var pkgPaths []string
 	wantPkg := map[string]bool{}
 	for _, f := range p.CS.Files {
@@ -76,6 +77,23 @@ func (p *Program) LoadConsts() error {
 						}
 					}
 				}
+			} else if mt, ok := v.Type().Underlying().(*types.Map); ok && strings.HasPrefix(pp, cadenceMod) {
+				// dispatch tables map[string]struct{...}: per key, the integer fields and the names of the functions
+				// held in function-typed fields ("Var[key].Field")
+				if kb, ok := mt.Key().Underlying().(*types.Basic); ok && kb.Kind() == types.String {
+					if st, ok := mt.Elem().Underlying().(*types.Struct); ok {
+						for i := 0; i < st.NumFields(); i++ {
+							if !st.Field(i).Exported() && pp != cadenceMod {
+								// unexported fields are fine too (the dump file is part of the package)
+							}
+							if _, _, isInt := intInfo(st.Field(i).Type()); isInt {
+								tables[pp] = append(tables[pp], [3]string{n, st.Field(i).Name(), "int"})
+							} else if _, isFn := st.Field(i).Type().Underlying().(*types.Signature); isFn {
+								tables[pp] = append(tables[pp], [3]string{n, st.Field(i).Name(), "func"})
+							}
+						}
+					}
+				}
 			} else if st, ok := v.Type().Underlying().(*types.Struct); ok && st.NumFields() > 0 && st.NumFields() <= 4 {
 				// small structs of integers (MemoryUsage, ComputationUsage): one entry per field
 				allInt := true
@@ -91,7 +109,7 @@ func (p *Program) LoadConsts() error {
 				}
 			}
 		}
-		if len(byPkg[pp]) > 0 {
+		if len(byPkg[pp]) > 0 || len(tables[pp]) > 0 {
 			pkgPaths = append(pkgPaths, pp)
 		}
 	}
@@ -121,7 +139,8 @@ func (p *Program) LoadConsts() error {
 		}
 		fmt.Fprintf(&mainSrc, "\tp%d.VerifDumpConsts(emit)\n", i)
 		var src bytes.Buffer
-		fmt.Fprintf(&src, "package %s\n\nimport (\n\tverifFmt \"fmt\"\n\tverifBig \"math/big\"\n)\n\nvar _ = verifFmt.Sprint\nvar _ *verifBig.Int\n\n", pkgName[pp])
+		fmt.Fprintf(&src, "package %s\n\nimport (\n\tverifFmt \"fmt\"\n\tverifBig \"math/big\"\n\tverifReflect \"reflect\"\n\tverifRuntime \"runtime\"\n)\n\nvar _ = verifFmt.Sprint\nvar _ *verifBig.Int\n\n", pkgName[pp])
+		src.WriteString("func verifFuncName(f any) string {\n\tv := verifReflect.ValueOf(f)\n\tif !v.IsValid() || v.Kind() != verifReflect.Func || v.IsNil() {\n\t\treturn \"nil\"\n\t}\n\tif fn := verifRuntime.FuncForPC(v.Pointer()); fn != nil {\n\t\treturn fn.Name()\n\t}\n\treturn \"?\"\n}\n\n")
 		src.WriteString("func VerifDumpConsts(emit func(name, val string)) {\n")
 		src.WriteString("\tb := func(x *verifBig.Int) string { if x == nil { return \"nil\" }; return x.String() }\n\t_ = b\n")
 		for _, g := range byPkg[pp] {
@@ -137,6 +156,13 @@ func (p *Program) LoadConsts() error {
 				fmt.Fprintf(&src, "\tif %s != nil { emit(%q, verifFmt.Sprint(%s.%s)) }\n", parts[0], pp+"."+g.name, parts[0], parts[1])
 			} else {
 				fmt.Fprintf(&src, "\temit(%q, verifFmt.Sprint(%s))\n", pp+"."+g.name, g.name)
+			}
+		}
+		for _, tb := range tables[pp] {
+			if tb[2] == "int" {
+				fmt.Fprintf(&src, "\tfor k, e := range %s { emit(%q+\"[\"+k+\"].%s\", verifFmt.Sprint(e.%s)) }\n", tb[0], pp+"."+tb[0], tb[1], tb[1])
+			} else {
+				fmt.Fprintf(&src, "\tfor k, e := range %s { emit(%q+\"[\"+k+\"].%s\", \"func:\"+verifFuncName(e.%s)) }\n", tb[0], pp+"."+tb[0], tb[1], tb[1])
 			}
 		}
 		src.WriteString("}\n")
